@@ -2,7 +2,7 @@
 function the property speaks about (the call-graph closure of its entry points, sa/scope.py) or at module level of its modules.
 Each is a contradiction between what an expression can hold and how it is used, visible in the shape of the code:
 
-  IDX0     a position (enumerate index, .index(), .find(), next(i for i, ... in enumerate(...))) tested for truth: position 0 is a
+  IDX0     a position (.index(), .find(), next(i for i, ... in enumerate(...))) tested for truth: position 0 is a
            hit and is falsy; find()'s -1 is a miss and is truthy
   STALE    inside a loop, a name assigned only in a try body whose handler neither assigns it nor leaves the iteration, and read after
            the try: on the handled path it is unbound (first iteration) or still holds the previous iteration's value
@@ -58,9 +58,7 @@ def idx0(fn):
             k = _is_position(n.value)
             if k:
                 pos[n.targets[0].id] = k
-        if isinstance(n, ast.For) and isinstance(n.iter, ast.Call) and isinstance(n.iter.func, ast.Name) and n.iter.func.id == 'enumerate' \
-                and isinstance(n.target, ast.Tuple) and isinstance(n.target.elts[0], ast.Name):
-            pos.setdefault(n.target.elts[0].id, 'enumerate index')
+        # (the index of a `for i, x in enumerate(...)` loop is left alone: `if i:` = "not the first item" is an idiom)
     # a name that has any non-position definition is left alone (e.g. re-used as a flag)
     for n in ast.walk(fn):
         if isinstance(n, ast.Assign):
